@@ -1392,6 +1392,7 @@ targets:
     dependencies: [lib::gen]
     input:
       - paths: [app.txt]
+      - cmd_stdout: cat val.txt
       - lib::gen.output
     output:
       - paths: [app.out]
@@ -1416,6 +1417,7 @@ targets:
       - paths: [in.txt]
     output:
       - paths: [gen.txt]
+      - cmd_stdout: cat val.txt
     build: cp in.txt gen.txt
   other:
     input:
@@ -1424,17 +1426,18 @@ targets:
 '''
 # key -> (display, project dir rel, project name, target name, inputs (files), outputs (files), deps)
 C18_TARGETS = {
-    'app': ('app', '', None, b'app', ['app.txt', 'lib/gen.txt'], ['app.out'], ['lib::gen']),
+    # (`cat val.txt` is declared by app in the root directory and inherited from lib::gen.output in lib/: same text, two directories)
+    'app': ('app', '', None, b'app', ['app.txt', 'val.txt', 'lib/gen.txt', 'lib/val.txt'], ['app.out'], ['lib::gen']),
     'solo': ('solo', '', None, b'solo', ['solo.txt'], [], []),
     'gen': ('gen', '', None, b'gen', ['rootgen.txt'], [], []),
     'bad': ('bad', '', None, b'bad', ['bad.txt'], [], []),
-    'lib::gen': ('lib::gen', 'lib', b'lib', b'gen', ['lib/in.txt'], ['lib/gen.txt'], []),
+    'lib::gen': ('lib::gen', 'lib', b'lib', b'gen', ['lib/in.txt'], ['lib/gen.txt', 'lib/val.txt'], []),
     'lib::other': ('lib::other', 'lib', b'lib', b'other', ['lib/o.txt'], [], []),
 }
 # (entry dir, argument spelling) -> target key
 C18_REQUESTS = [('', 'app', 'app'), ('', 'solo', 'solo'), ('', 'gen', 'gen'), ('', 'bad', 'bad'), ('', 'lib::gen', 'lib::gen'),
                 ('', 'lib::other', 'lib::other'), ('lib', 'gen', 'lib::gen'), ('lib', 'lib::gen', 'lib::gen'), ('lib', 'other', 'lib::other')]
-C18_FILES = ['app.txt', 'solo.txt', 'rootgen.txt', 'bad.txt', 'lib/in.txt', 'lib/o.txt']
+C18_FILES = ['app.txt', 'solo.txt', 'rootgen.txt', 'bad.txt', 'lib/in.txt', 'lib/o.txt', 'val.txt', 'lib/val.txt']
 
 
 def c18_closure(k):
@@ -1450,8 +1453,10 @@ def gen_c18_sequence(rng):
         r = rng.random()
         if r < 0.6:
             ops.append(('run',) + rng.choice(C18_REQUESTS))
-        elif r < 0.8:
+        elif r < 0.77:
             ops.append(('edit', rng.choice(C18_FILES)))
+        elif r < 0.8:
+            ops.append(rng.choice([('copyval', 'lib/val.txt', 'val.txt'), ('copyval', 'val.txt', 'lib/val.txt')]))
         elif r < 0.85:
             ops.append(('rmout', rng.choice(['lib/gen.txt', 'app.out'])))
         elif r < 0.95:
@@ -1504,9 +1509,17 @@ def c18_run_sequence(root, ops, paths):
         base = {'kind': 'c18-sequence', 'root_zinoma_yml': C18_ROOT_YML, 'lib_zinoma_yml': C18_LIB_YML, 'sequence_so_far': trace + [op],
                 'sequence_literal': repr(ops),
                 'replay': 'create the two projects with files %r (any distinct contents), then replay `sequence_so_far`: run = `zinoma -p <entry> <arg>`, '
-                          'clean = `zinoma -p <entry> --clean <arg>`, cleanall = `zinoma -p <entry> --clean`, edit = rewrite the file' % C18_FILES}
+                          'clean = `zinoma -p <entry> --clean <arg>`, cleanall = `zinoma -p <entry> --clean`, edit = rewrite the file, copyval = copy one val.txt onto the other' % C18_FILES}
         if op[0] == 'edit':
             write(op[1])
+            trace.append(op)
+            continue
+        if op[0] == 'copyval':
+            src, dst = op[1], op[2]
+            open(os.path.join(root, dst), 'wb').write(content(src) or b'')
+            version[0] += 1
+            t = (1700000000 + version[0] * 10) * 10 ** 9 + version[0]
+            os.utime(os.path.join(root, dst), ns=(t, t))
             trace.append(op)
             continue
         if op[0] == 'rmout':
@@ -1539,6 +1552,8 @@ def c18_run_sequence(root, ops, paths):
             for k in clos:
                 rec.pop(k, None)
                 for o in C18_TARGETS[k][5]:
+                    if o.endswith('val.txt'):
+                        continue            # read by an output COMMAND, not a declared output path
                     try:
                         os.remove(os.path.join(root, o))
                     except OSError:
